@@ -35,6 +35,7 @@ import (
 
 type uiEnv struct {
 	trace    []string
+	nsar     int // reviews issued so far in this request
 	script   string
 	verified map[string]string // trial name -> namespace in which a Get of that Trial succeeded during this request
 }
@@ -79,6 +80,11 @@ func startUIDB() string {
 
 func (e *uiEnv) allow(ns string) bool {
 	switch {
+	case strings.HasPrefix(e.script, "allowfirst:"):
+		// resource-granular RBAC: only what the first review of the request asks for is granted
+		return e.nsar == 0 && strings.TrimPrefix(e.script, "allowfirst:") == ns
+	case strings.HasPrefix(e.script, "errsecond:"):
+		return e.nsar == 0 && strings.TrimPrefix(e.script, "errsecond:") == ns
 	case e.script == "allowall":
 		return true
 	case e.script == "denyall":
@@ -177,6 +183,10 @@ func init() {
 					al := env.allow(ns)
 					sar.Status.Allowed = al
 					env.trace = append(env.trace, fmt.Sprintf("sar:%s:%s:%s", ns, b01(al), hx(sar.Spec.User)))
+					env.nsar++
+					if strings.HasPrefix(env.script, "errsecond:") && env.nsar >= 2 {
+						return fmt.Errorf("the server is currently unable to handle the request (post subjectaccessreviews.authorization.k8s.io)")
+					}
 					return nil
 				}
 				rec("create", obj, obj.GetNamespace())
@@ -212,7 +222,7 @@ func init() {
 		h := ui.NewVerifKatibUIHandler(katibclient.NewWithGivenClient(c), startUIDB())
 		rs := routes[k%len(routes)]
 		hdr := rng.Intn(4) != 0
-		env.script = pick(rng, []string{"denyall", "allowall", "allow:a", "allow:b"})
+		env.script = pick(rng, []string{"denyall", "allowall", "allow:a", "allow:b", "allow:a", "allow:b", "allowfirst:a", "allowfirst:b", "errsecond:a", "errsecond:b"})
 		reqNs := pick(rng, []string{"a", "b"})
 		target := rs.path
 		var body io.Reader
